@@ -1786,10 +1786,20 @@ class FileBuilder:
         operation = self._operation
         filename = operation.filename
         try:
-            operation.return_value = self._call_and_sanitize_return_value(
-                func, [self, filename] + copy.deepcopy(operation.args),
-                copy.deepcopy(operation.kwargs),
-                'the build_file* call for {:s}'.format(filename))
+            try:
+                operation.return_value = (
+                    self._call_and_sanitize_return_value(
+                        func,
+                        [self, filename] + copy.deepcopy(operation.args),
+                        copy.deepcopy(operation.kwargs),
+                        'the build_file* call for {:s}'.format(filename)))
+            finally:
+                # Close the builder as soon as the function has returned or
+                # raised, as in _subbuild. Otherwise, another thread could
+                # still query the builder while we are removing a failed
+                # output file, and we would record what it saw.
+                with self._lock:
+                    operation.is_finished = True
 
             operation.file_comparison_result = (
                 self._noneable_file_comparison_result(
